@@ -11,7 +11,8 @@ import vlib, build, bpbind, gen
 from vlib import VERIF, Evidence, Reporter, run_tlc, write_cfg, scratch, SEED, sh
 
 PID = "C12"
-UNIT = 32768
+# the model's buffer of 4 units stands for the file stream's buffer: one unit = BUFSZ / 4 of the tree under test
+UNIT = max(build.src_define("lib/sqfs/src/io/istream.c", "BUFSZ", 131072) // 4, 1)
 
 
 def feed(proc_args, data, chunk, env=None, rng=None):
